@@ -28,6 +28,11 @@
  *        receiver A is inside _error() -- reply stream opened, about to format the record -- it is parked;
  *        it continues as soon as receiver B has gone through an _error() of its own and is waiting for
  *        input again (or when the input is exhausted).
+ *        RACE `uA:B`: a forced interleaving of the umask(2) calls at the start of two receivers:
+ *        A: mask = umask(0);  B: mask = umask(0);  A: umask(mask);  B: umask(mask)   (B read A's temporary 0).
+ *        The receivers are started one after the other (in every `multi` op, so that nothing depends on how
+ *        the threads happen to be scheduled); with `uA:B` A is started first and parked after its first
+ *        umask() call, then B likewise, then A continues, then B.
  *        answer: rc= sig= san= to=<0|1> parked=<0|1> r0=<hex replies of connection 0> r1=... err=<hex tail>
  *
  * The chroot confines every experiment (hostile names such as ../../x) to the per-case jail directory,
@@ -55,12 +60,17 @@ static ssize_t harness_read(int fd, void *buf, size_t n);
  * Parking a thread between two statements is a legitimate schedule of the unchanged code. */
 static FILE *harness_fdopen(int fd, const char *mode);
 static void harness_sched_point(void);
+/* umask(2) is PROCESS wide: _sink's `mask = umask(0); if (!preserve) umask(mask);` is a scheduling point too
+ * (op `multi`, RACE `uA:B`) */
+static mode_t harness_umask(mode_t m);
+#define umask(m) harness_umask(m)
 #define fdopen(fd, mode) harness_fdopen(fd, mode)
 #define errf(stream, fmt, ap) (harness_sched_point(), (errf)(stream, fmt, ap))
 #include "src/pdsh/pcp_server.c"
 #undef read
 #undef fdopen
 #undef errf
+#undef umask
 #undef atime
 #undef mtime
 #undef SCREWUP
@@ -423,6 +433,7 @@ typedef struct {
     struct pcp_server svr;
     int idle, finished;        /* accessed with __atomic builtins */
     int in_error, nerrors, parked;
+    int upark, urelease;       /* umask race: park after the first umask() call / continue */
     pthread_t th;
     dyn_t log;                 /* replies */
     char **chunks; size_t *clen; int nchunks;
@@ -467,6 +478,20 @@ static void harness_sched_point(void)
     }
     __atomic_add_fetch(&c->nerrors, 1, __ATOMIC_SEQ_CST);
     errno = e;
+}
+
+static mode_t harness_umask(mode_t m)
+{
+    conn_t *c = self_conn;
+    mode_t r = umask(m);
+    if (c && c->upark) {
+        c->upark = 0;
+        __atomic_store_n(&c->parked, 1, __ATOMIC_SEQ_CST);
+        while (!__atomic_load_n(&c->urelease, __ATOMIC_SEQ_CST))
+            usleep(50);
+        __atomic_store_n(&c->parked, 0, __ATOMIC_SEQ_CST);
+    }
+    return r;
 }
 
 static void *conn_thread(void *arg)
@@ -517,7 +542,7 @@ static int wait_quiet(conn_t *cs, int k, int i, int want_finished, const struct 
 }
 
 static void multi_child(const char *jail, const char *cwd, int p, int y, int um, conn_t *cs, int k, int resfd,
-                        int errfd, int ra, int rb)
+                        int errfd, int ra, int rb, int ua, int ub)
 {
     struct timespec t0;
     int to = 0, maxch = 0, was_parked = 0, base_b = -1;
@@ -538,10 +563,28 @@ static void multi_child(const char *jail, const char *cwd, int p, int y, int um,
         cs[i].svr.target_is_dir = y;
         if (cs[i].nchunks > maxch) maxch = cs[i].nchunks;
     }
-    for (int i = 0; i < k; i++)
+    /* the receivers start one after the other: each has sent its greeting and waits for input before the next
+       one is created (deterministic whatever the scheduler does) */
+    if (ua >= 0) {
+        /* A: mask = umask(0) | B: mask = umask(0) | A: umask(mask) ... | B: umask(mask) ... */
+        int ab[2] = { ua, ub };
+        for (int x = 0; x < 2 && !to; x++) {
+            cs[ab[x]].upark = 1;
+            if (pthread_create(&cs[ab[x]].th, NULL, conn_thread, &cs[ab[x]]) != 0) _exit(97);
+            if (wait_quiet(cs, k, ab[x], 0, &t0, 8000) < 0) to = 1;
+            if (__atomic_load_n(&cs[ab[x]].parked, __ATOMIC_SEQ_CST)) was_parked = 1;
+        }
+        for (int x = 0; x < 2 && !to; x++) {
+            __atomic_store_n(&cs[ab[x]].urelease, 1, __ATOMIC_SEQ_CST);
+            while (__atomic_load_n(&cs[ab[x]].parked, __ATOMIC_SEQ_CST)) usleep(50);
+            if (wait_quiet(cs, k, ab[x], 0, &t0, 8000) < 0) to = 1;
+        }
+    }
+    for (int i = 0; i < k && !to; i++) {
+        if (i == ua || i == ub) continue;
         if (pthread_create(&cs[i].th, NULL, conn_thread, &cs[i]) != 0) _exit(97);
-    for (int i = 0; i < k && !to; i++)
         if (wait_quiet(cs, k, i, 0, &t0, 8000) < 0) to = 1;
+    }
     for (int j = 0; j < maxch && !to; j++)
         for (int i = 0; i < k && !to; i++) {
             if (j >= cs[i].nchunks || __atomic_load_n(&cs[i].finished, __ATOMIC_SEQ_CST))
@@ -609,19 +652,22 @@ static void op_multi(char *rest)
         for (char *q = strtok(ch, ","); q; q = strtok(NULL, ","))
             cs[i].chunks[cs[i].nchunks] = (char *) unhex(q, &cs[i].clen[cs[i].nchunks]), cs[i].nchunks++;
     }
-    int ra = -1, rb = -1;
+    int ra = -1, rb = -1, ua = -1, ub = -1;
     char *race = tok(&rest);
-    if (race && sscanf(race, "%d:%d", &ra, &rb) == 2) {
+    if (race && race[0] == 'u' && sscanf(race + 1, "%d:%d", &ua, &ub) == 2) {
+        if (ua < 0 || ub < 0 || ua >= k || ub >= k || ua == ub) { printf("bad-op\n"); return; }
+    } else if (race && sscanf(race, "%d:%d", &ra, &rb) == 2) {
         if (ra < 0 || rb < 0 || ra >= k || rb >= k || ra == rb) { printf("bad-op\n"); return; }
+        ua = ub = -1;
     } else
-        ra = rb = -1;
+        ra = rb = ua = ub = -1;
     int pres[2], perr[2];
     if (pipe(pres) < 0 || pipe(perr) < 0) { printf("harness-error pipe\n"); return; }
     fflush(stdout);
     pid_t pid = fork();
     if (pid == 0) {
         close(pres[0]); close(perr[0]);
-        multi_child(jail, cwd, atoi(ps), atoi(ys), (int) strtol(ums, NULL, 8), cs, k, pres[1], perr[1], ra, rb);
+        multi_child(jail, cwd, atoi(ps), atoi(ys), (int) strtol(ums, NULL, 8), cs, k, pres[1], perr[1], ra, rb, ua, ub);
     }
     close(pres[1]); close(perr[1]);
     set_nb(pres[0]); set_nb(perr[0]);
